@@ -11,6 +11,7 @@ import KinModel.Lemmas.C02
 import KinModel.Lemmas.C02Term
 import KinModel.Lemmas.C02Complete
 import KinModel.LoaderJson
+import KinModel.LoaderHistory
 import KinModel.Gen.ResolverSkeleton
 import KinModel.Gen.LoaderPositions
 import KinModel.Lemmas.C02Step
@@ -232,6 +233,98 @@ theorem entry_values_right_partial (w : World) (hC : CopyOK w) (fuel : Nat) (e :
     have := pres_foldRes w _ (fun k => resolve_pres w hC fuel e.root k) (w.roots e.root) _ s' h ⟨hf, ht⟩
     exact (this.2 hi0).1
 
+/-! ### (5b) … over a store that CHANGES between the loads, and position by position
+
+`loadSeqW` (LoaderHistory.lean) gives every load of a history its own world (the files as they are at that moment) and
+its own fuel. Because every entry point resets the whole per-load state, the i-th result of the history IS the result
+of the i-th load on a fresh Loader over the i-th store — whatever the files were before, whatever the earlier loads
+did, for every length of the history. (`history_loads_are_independent` above only says that every result is the
+fresh result of SOME load of the history.) -/
+
+theorem changing_store_history_is_fresh_loads :
+    ∀ (ls : List LoadW) (s : St), (∀ l ∈ ls, l.e.resets = true) →
+      (∀ l ∈ ls, loadEntry l.w l.fuel l.e {} ≠ .outOfFuel) →
+      loadSeqW ls s = ls.map (fun l => loadEntry l.w l.fuel l.e {})
+  | [], _, _, _ => by simp [loadSeqW]
+  | l :: ls, s, he, hf => by
+    have h0 := entry_is_fresh_load l.w l.fuel l.e (he l (by simp)) s
+    have hne := hf l (by simp)
+    have ih := fun s' => changing_store_history_is_fresh_loads ls s'
+      (fun x hx => he x (by simp [hx])) (fun x hx => hf x (by simp [hx]))
+    unfold loadSeqW
+    rw [h0]
+    cases hl : loadEntry l.w l.fuel l.e {} with
+    | outOfFuel => exact absurd hl hne
+    | ok s1 => simp only [List.map_cons, hl, ih]
+    | err k s1 => simp only [List.map_cons, hl, ih]
+
+/-- the same for one unchanged store: the list of results of a history is, position by position, the list of the
+    fresh loads -/
+theorem history_is_list_of_fresh_loads (w : World) (fuel : Nat) (es : List Entry) (s : St)
+    (he : ∀ e ∈ es, e.resets = true) (hf : ∀ e ∈ es, loadEntry w fuel e {} ≠ .outOfFuel) :
+    loadSeq w fuel es s = es.map (fun e => loadEntry w fuel e {}) := by
+  rw [loadSeq_eq_loadSeqW, changing_store_history_is_fresh_loads]
+  · simp [List.map_map, Function.comp_def]
+  · intro l hl; obtain ⟨e, hm, rfl⟩ := List.mem_map.1 hl; exact he e hm
+  · intro l hl; obtain ⟨e, hm, rfl⟩ := List.mem_map.1 hl; exact hf e hm
+
+/-- "loading always terminates" for histories: a history of located loads (LoadFromFile / LoadFromURI /
+    LoadFromDataWithPath) over changing stores, each load given the fuel of `load_terminates` for ITS store, never runs
+    out of fuel at any position — from whatever state the Loader is in — and is the list of the fresh loads -/
+theorem changing_store_history_terminates (ls : List LoadW) (s : St)
+    (hl : ∀ l ∈ ls, l.e.resets = true ∧ l.e.located = true)
+    (hb : ∀ l ∈ ls, ∃ rank R T, Ranked l.w rank R ∧ TextsIn l.w T ∧ (T.length + 1) * (R + 1) ≤ l.fuel) :
+    loadSeqW ls s = ls.map (fun l => load l.w l.fuel l.e.root) ∧ Res.outOfFuel ∉ loadSeqW ls s := by
+  have hfresh : ∀ l ∈ ls, loadEntry l.w l.fuel l.e {} = load l.w l.fuel l.e.root := by
+    intro l hm
+    obtain ⟨h1, h2⟩ := hl l hm
+    have : l.e = ⟨l.e.root, true, true⟩ := by cases hE : l.e; simp_all
+    rw [this]; exact entry_fresh_is_load l.w l.fuel l.e.root
+  have hno : ∀ l ∈ ls, load l.w l.fuel l.e.root ≠ .outOfFuel := by
+    intro l hm
+    obtain ⟨rank, R, T, hR, hT, hle⟩ := hb l hm
+    exact load_terminates l.w rank R T hR hT l.fuel l.e.root hle
+  have h1 : loadSeqW ls s = ls.map (fun l => load l.w l.fuel l.e.root) := by
+    rw [changing_store_history_is_fresh_loads ls s (fun l hm => (hl l hm).1)
+      (fun l hm => by rw [hfresh l hm]; exact hno l hm)]
+    exact List.map_congr_left hfresh
+  refine ⟨h1, ?_⟩
+  rw [h1]
+  intro hmem
+  obtain ⟨l, hm, heq⟩ := List.mem_map.1 hmem
+  exact hno l hm heq
+
+/-- (2)+(4) carried over to histories: when the i-th load of a history over changing stores — whatever happened before
+    on that Loader, whatever the files were before — returns a document in a clean run (no foreign evaluation, no text
+    clash, no degenerate target), every reference of the graph loaded from the i-th store HAS a value and that value
+    is the object its text designates in the i-th store -/
+theorem history_load_ok_resolves_all_partial (ls : List LoadW) (s0 : St) (i : Nat) (l : LoadW) (s : St)
+    (hres : ∀ x ∈ ls, x.e.resets = true) (hnf : ∀ x ∈ ls, loadEntry x.w x.fuel x.e {} ≠ .outOfFuel)
+    (hl : ls[i]? = some l) (hloc : l.e.located = true) (hr : (loadSeqW ls s0)[i]? = some (.ok s))
+    (hC : CopyOK l.w) (hf : s.foreign = false) (ht : s.tclash = false) (hc : Clean s) :
+    ∀ o n t, Reach l.w s l.e.root o → l.w.node o = some n → n.ref = some t → n.orig = none →
+      ∃ v f, s.get o = some v ∧ designates l.w f o = some v := by
+  rw [changing_store_history_is_fresh_loads ls s0 hres hnf, List.getElem?_map, hl] at hr
+  simp only [Option.map_some, Option.some.injEq] at hr
+  have hmem : l ∈ ls := List.mem_of_getElem? hl
+  have he : l.e = ⟨l.e.root, true, true⟩ := by
+    have h1 := hres l hmem
+    cases hE : l.e; simp_all
+  rw [he, entry_fresh_is_load] at hr
+  exact load_ok_resolves_all_partial l.w hC l.fuel l.e.root s hr hf ht hc
+
+/-- soundness at every position of a changing-store history, for every entry point (LoadFromData too) and also for
+    the state a FAILED load leaves: a load that raises neither flag records only values that are right in ITS store —
+    nothing recorded by an earlier load, over earlier files, is among them -/
+theorem history_values_right_partial (ls : List LoadW) (s0 : St) (i : Nat) (l : LoadW) (r : Res) (s : St)
+    (hres : ∀ x ∈ ls, x.e.resets = true) (hnf : ∀ x ∈ ls, loadEntry x.w x.fuel x.e {} ≠ .outOfFuel)
+    (hl : ls[i]? = some l) (hr : (loadSeqW ls s0)[i]? = some r) (hs : r.st? = some s)
+    (hC : CopyOK l.w) (hf : s.foreign = false) (ht : s.tclash = false) : Good l.w s := by
+  rw [changing_store_history_is_fresh_loads ls s0 hres hnf, List.getElem?_map, hl] at hr
+  simp only [Option.map_some, Option.some.injEq] at hr
+  subst hr
+  exact entry_values_right_partial l.w hC l.fuel l.e (hres l (List.mem_of_getElem? hl)) {} s hs hf ht
+
 /-! ### (T) the ten resolvers have the skeleton and the child calls the model assumes
 
 `Gen.resolverSkeleton` is regenerated from openapi3/loader.go on every run. -/
@@ -414,6 +507,29 @@ theorem w50_regression_history_independent :
         (fun r => match r with | .ok _ => 1 | .err _ _ => 2 | .outOfFuel => 3)) = [2, 2]
     ∧ (match load w50 20 2 with | .err _ _ => true | _ => false) = true := by decide
 theorem w50_spec : designates w50 5 3 = none := by decide
+
+/-- F-C02-50 over a changing store: `w50` with the dangling reference of x.json (object 3) repaired -/
+def w50fixed : World := { w50 with target := fun _ t _ => match t with
+    | 0 => some (1, 1)
+    | 1 => some (1, 2)
+    | _ => some (1, 2) }
+
+/-- non-vacuity and regression: load root1 over the broken store (fails half-way through x.json), edit x.json, load
+    root1 again on the SAME Loader: it loads, and the formerly dangling reference now has the value it designates -/
+theorem w50_changing_store_history :
+    ((loadSeqW [⟨w50, 20, ⟨0, true, true⟩⟩, ⟨w50fixed, 20, ⟨0, true, true⟩⟩] {}).map
+        (fun r => match r with | .ok s => (1, s.get 3) | .err _ _ => (2, none) | .outOfFuel => (3, none))) = [(2, none), (1, some 2)]
+    ∧ designates w50fixed 5 3 = some 2 := by decide
+
+/-- non-vacuity of `history_load_ok_resolves_all_partial`: position 1 of that history returns a document in a clean run
+    (flags down, counters zero) over a world with well-formed copies -/
+example : (match ((loadSeqW [⟨w50, 20, ⟨0, true, true⟩⟩, ⟨w50fixed, 20, ⟨0, true, true⟩⟩] {})[1]? : Option Res) with
+    | some (Res.ok s) => (!s.foreign) && (!s.tclash) && (s.nnil + s.nempty == 0) && s.get 0 == some 1
+    | _ => false) = true := by decide
+
+example : CopyOK w50fixed := by
+  intro c n r hn ho
+  rcases c with _ | _ | _ | _ | _ | c <;> simp [World.node, w50fixed, w50] at hn <;> subst hn <;> simp at ho
 
 /-- #13 / F-C02-13 (fixed cbb0d05). Object 0: a response value whose child 1 (a header under content.encoding,
     formerly never visited) refers to the header 2. -/
